@@ -2,7 +2,7 @@
    Model: coq/Model/NumText.v. *)
 From Coq Require Import List NArith ZArith Bool.
 Import ListNotations.
-From HV Require Import Model.Big Model.Rat Model.NumText Model.Compile Proofs.TextBase Proofs.RatSpec Proofs.TextAll Proofs.CoroSpec.
+From HV Require Import Model.Big Model.Rat Model.NumText Model.Compile Proofs.TextBase Proofs.RatSpec Proofs.TextAll Proofs.CoroSpec Proofs.Text2Spec Proofs.Text2All.
 From HV Require Proofs.CoroProofs.
 Open Scope N_scope.
 
@@ -39,10 +39,29 @@ Theorem C09_from_string_base_range : forall s base, base = 0 \/ 36 < base -> fro
 Proof. exact fsb_base_range. Qed.
 Print Assumptions C09_from_string_base_range.
 
+(* reading ANY text, not only a canonical rendering: for every base 1..36 a text whose body (after an optional leading
+   minus) consists of 0-9A-Z reads as the Horner value of its digits - leading zeros, digits at or above the base and
+   the empty body included - negated after the minus, in normal form (except the negative zero of "-0...0"); every other
+   text is rejected with a parse error: exactly the characters outside 0-9A-Z are rejected *)
+Theorem C09_from_string_any_text : forall s base, 1 <= base <= 36 ->
+  let neg := fst (fsb_sign s) in
+  let body := snd (fsb_sign s) in
+  (all_digits body ->
+     exists a, from_string_base s base = FSOk a /\
+       bval a = (if neg then - Z.of_N (digits_val base body 0) else Z.of_N (digits_val base body 0))%Z /\
+       (neg = false \/ bval a <> 0%Z -> wf a)) /\
+  (~ all_digits body -> from_string_base s base = FSParse).
+Proof. exact fsb_any_t. Qed.
+Print Assumptions C09_from_string_any_text.
+
 Example C09_examples :
   to_string_base (mkbig false [255]) 16 = TSOk [45; 70; 70] /\
   from_string_base [45; 70; 70] 16 = FSOk (mkbig false [255]) /\
   num_from_string (num_display (nnew (-7) 3)) = Some (nnew (-7) 3) /\
-  to_string_base (mkbig true [0; 1]) 36 = TSOk [49; 90; 49; 52; 49; 90; 52].
+  to_string_base (mkbig true [0; 1]) 36 = TSOk [49; 90; 49; 52; 49; 90; 52] /\
+  from_string_base [45; 48; 48; 55] 10 = FSOk (mkbig false [7]) /\
+  from_string_base [48; 90] 2 = FSOk (mkbig true [35]) /\
+  from_string_base [49; 97] 16 = FSParse /\
+  from_string_base [49; 45] 10 = FSParse.
 Proof. vm_compute. repeat split; reflexivity. Qed.
 Print Assumptions C09_examples.
